@@ -60,10 +60,14 @@ CHECKS["C01"] = dict(
     text="Rule-by-rule refinement of CPython's own grammar (verbatim 3.11 python.gram as specification): every shared rule has CPython's alternatives in "
          "order, every extra alternative is gated by a xonsh-only lexeme, and ~80 grammar actions are proved to build the node CPython builds "
          "(constructor, field binding, operator class, ctx); span meaning (last non-layout token), token filtering and the left-recursion wrapper are "
-         "proved from the real function bodies by z3. Whole-pipeline tree equality with ast.parse is a bounded stand-in (programs x layout variants).",
-    design_ref="DESIGN.md 5/C01, 3.5",
+         "proved from the real function bodies by z3; so are the string builders (E1): _concat_strings_in_constant folds the evaluated pieces left to "
+         "right into one Constant spanning first..last piece, rejects str/bytes mixes, kind 'u' from the first piece; concatenate_strings returns one "
+         "Constant exactly when no part is an f-string, otherwise a JoinedStr, spanning first part start .. last part end. Whole-pipeline tree equality "
+         "with ast.parse is a bounded stand-in (programs x layout variants).",
+    design_ref="DESIGN.md 5/C01, 3.5, 9.8",
     note="assumed: 3.12 delta rules (PEP 695/701), helper-laden reference actions not compared, seed-growing = left-recursive PEG semantics, "
-         "token-stream agreement (C09); syntactic unification; bounded stand-in never counted as proved.",
+         "token-stream agreement (C09); syntactic unification; ast.literal_eval modelled as an uninterpreted evaluation of each piece; the contents of a "
+         "JoinedStr's values after merging adjacent Constants are not specified (opaque loop); bounded stand-in never counted as proved.",
     technique="refinement contracts against CPython's grammar (structural unification) + E1 VCs (z3) on span/filter functions",
 )
 CHECKS["C02"] = dict(
@@ -166,7 +170,8 @@ CHECKS["C14"] = dict(
          "NEWLINE/INDENT/DEDENT/ENDMARKER), continuation keywords not in first(statement), in_recursive_rule restored (E1). Pairs and triples from a "
          "statement pool are the bounded stand-in for the composed statement.",
     design_ref="DESIGN.md 5/C14",
-    note="assumed: tokenizer neutrality at top-level NEWLINE; that concatenate_strings clears _path_token on every path is not proved (stand-in only); "
+    note="assumed: tokenizer neutrality at top-level NEWLINE; concatenate_strings / handle_fstring are verified (E1): a pending p prefix is consumed "
+         "exactly by the concatenation that contains its owner node and both fields are None afterwards; "
          "composition argued in prose; one known finding (with-macro followed by blank/comment line).",
     technique="protocol/frame/barrier obligations on the generated parser's IR",
 )
@@ -220,11 +225,13 @@ CHECKS["C10"] = dict(
     engine="gramref+pegir+pyvc", category="proof",
     text="The seven f-string grammar rules are proved to have CPython 3.12's alternatives in order (refinement against a transcription of the 3.12 "
          "rules), their actions to build Constant / FormattedValue / JoinedStr from exactly the matched items, `fstring` to be reachable only through "
-         "`strings` (concatenate_strings), check_fstring_conversion and the mode-frame queries to meet their contracts (E1). The literal-text search "
+         "`strings` (concatenate_strings), check_fstring_conversion and the mode-frame queries to meet their contracts (E1); handle_fstring and "
+         "concatenate_strings are verified from their bodies (one JoinedStr over the matched parts, span first part .. last part, p-prefix bookkeeping). The literal-text search "
          "patterns are checked exhaustively on short strings with the real `re` (bounded). ~29000 f-strings (prefix x quote x literal x field x layout) "
          "against tokenize/ast.parse of the running CPython are the bounded stand-in; five whole input classes are known findings.",
     design_ref="DESIGN.md 5/C10",
-    note="ASSUMED: hand transcription of CPython 3.12's f-string rules; what `re` does (Match contract); concatenate_strings is not under contract. "
+    note="ASSUMED: hand transcription of CPython 3.12's f-string rules; what `re` does (Match contract); _decode_fstring_parts (escape decoding, ASSUMED contract) and the merging of adjacent Constants inside "
+         "concatenate_strings (opaque loop: inner spans/values only by the stand-in). "
          "The mode machine (handle_fstring_progs, handle_end_progs, next_psuedo_matches, frame methods) IS verified from its bodies (E1). Known findings: "
          "doubled braces, '=' debug fields, \\N{...}, non-ASCII columns, multi-line format spec.",
     technique="grammar refinement + action contracts on the parser IR, E1 contracts on the f-string mode machine (z3)",
